@@ -25,7 +25,6 @@ def main():
     import auditok.workers as W
     import auditok.plotting as P
     out = []
-    real_os = W.os
     real_plot = P.plot
     for job in jobs:
         res = {"id": job["id"], "exit": None, "raised": None, "stdout": "", "stderr": ""}
@@ -33,26 +32,13 @@ def main():
         if job.get("fx"):
             # side-effect options: os.system as seen by auditok.workers is recorded (the temporary wav is read and removed), a fake pyaudio
             # device collects what is played, plot() is recorded instead of drawn
-            class OsShim:
-                def __getattr__(self_, name):
-                    return getattr(os, name)
-
-                def system(self_, cmd):
-                    f = cmd.split(" ", 1)[1] if " " in cmd else ""
-                    rec = {"cmd": cmd.split(" ")[0], "exists": os.path.exists(f), "sha": None, "par": None}
-                    try:
-                        with wave.open(f) as wf:
-                            rec["sha"] = hashlib.sha1(wf.readframes(-1)).hexdigest()
-                            rec["par"] = [wf.getframerate(), wf.getsampwidth(), wf.getnchannels()]
-                    except Exception:  # noqa
-                        pass
-                    try:
-                        os.remove(f)
-                    except OSError:
-                        pass
-                    fx["commands"].append(rec)
-                    return 0
-            W.os = OsShim()
+            consume_dir = os.path.join(job["cwd"], "consumed")
+            os.makedirs(consume_dir, exist_ok=True)
+            open(os.path.join(consume_dir, "log"), "w").close()
+            os.environ["VERIF_CONSUME_DIR"] = consume_dir
+            bindir = os.path.join(os.path.dirname(os.path.abspath(__file__)), "bin")
+            if bindir not in os.environ.get("PATH", "").split(":"):
+                os.environ["PATH"] = bindir + ":" + os.environ.get("PATH", "")
             mod = types.ModuleType("pyaudio")
 
             class FakeStream:
@@ -97,6 +83,8 @@ def main():
                                     "dets": [[float(a_), float(b_)] for a_, b_ in (detections or [])], "eth": energy_threshold,
                                     "save_as": os.path.basename(save_as) if save_as else None, "show": bool(show)})
             P.plot = fake_plot
+            if hasattr(C, "plot"):
+                C.plot = fake_plot            # in case the command line imports plot at module level
         so, se = io.StringIO(), io.StringIO()
         old_stdin = sys.stdin
         old_argv = sys.argv
@@ -131,8 +119,23 @@ def main():
             os.chdir(cwd)
         res["stdout"] = so.getvalue()
         res["stderr"] = se.getvalue()[-500:] if not job.get("fx") else se.getvalue()[-200000:]
+        if job.get("fx"):
+            try:
+                lines = [x for x in open(os.path.join(consume_dir, "log")).read().split("\n") if x]
+            except OSError:
+                lines = []
+            for j, ln in enumerate(lines):
+                rec = {"cmd": ln.split(" ")[0], "exists": ln.endswith(" present"), "sha": None, "par": None}
+                try:
+                    with wave.open(os.path.join(consume_dir, f"{j}.wav")) as wf:
+                        rec["sha"] = hashlib.sha1(wf.readframes(-1)).hexdigest()
+                        rec["par"] = [wf.getframerate(), wf.getsampwidth(), wf.getnchannels()]
+                except Exception:  # noqa
+                    pass
+                fx["commands"].append(rec)
+            import shutil
+            shutil.rmtree(consume_dir, ignore_errors=True)
         res["fx"] = fx
-        W.os = real_os
         P.plot = real_plot
         sys.modules.pop("pyaudio", None)
         # one process runs many command lines: the named logger of cmdline_util must not carry handlers from one to the next
